@@ -2,6 +2,7 @@ package main
 
 import (
 	"fmt"
+	"go/ast"
 	"go/constant"
 	"go/token"
 	"go/types"
@@ -732,6 +733,381 @@ var ruleCfgG11 = &Rule{
 			}
 		}
 		obs = append(obs, floor("CFG/G11-companion-table", "lookups keyed by the elements of another configuration list", n, 3))
+		return obs
+	},
+}
+
+// AST/else-marker: `else` is stored as a trailing `true` condition; whoever compares conditions must be able to
+// tell it from a condition the user wrote.
+
+var ruleElseMarker = &Rule{
+	Name:    "AST/else-marker",
+	NeedSSA: true,
+	Text: "the parser stores the else branch of an if statement as one more element of IfStat.Exps (a fabricated `true`): (1) the function that fabricates it " +
+		"(allocates an ast.TrueExp and builds the ast.IfStat) records the fact in a boolean field of the IfStat, with a value that is not the constant false; " +
+		"(2) every function that compares two elements of IfStat.Exps with each other (common.CompExp on two loads from Exps) reads that boolean field. " +
+		"Without the marker `if true then … else … end` is indistinguishable from `if true then … elseif true then … end` and is reported as a repeated condition",
+	Run: func(c *Ctx) []Ob {
+		var obs []Ob
+		const astPkg = modPath + "/langserver/check/compiler/ast"
+		isIfStat := func(t types.Type) bool {
+			p, n := namedPkgName(t)
+			return p == astPkg && n == "IfStat"
+		}
+		boolFieldOfIf := func(fa *ssa.FieldAddr) bool {
+			if !isIfStat(fa.X.Type()) {
+				return false
+			}
+			st, ok := namedOf(fa.X.Type()).Underlying().(*types.Struct)
+			return ok && fa.Field < st.NumFields() && isBoolType(st.Field(fa.Field).Type())
+		}
+		// (1) the fabricating function
+		nFab := 0
+		for _, f := range c.ModFns() {
+			if f.Pkg == nil || f.Pkg.Pkg.Path() != parserPkg {
+				continue
+			}
+			fabricates, builds := false, false
+			markerOK := false
+			for _, b := range f.Blocks {
+				for _, ins := range b.Instrs {
+					if al, ok := ins.(*ssa.Alloc); ok {
+						if p, n := namedPkgName(al.Type()); p == astPkg && n == "TrueExp" {
+							fabricates = true
+						}
+						if isIfStat(al.Type()) {
+							builds = true
+						}
+					}
+					if st, ok := ins.(*ssa.Store); ok {
+						if fa, ok := st.Addr.(*ssa.FieldAddr); ok && boolFieldOfIf(fa) {
+							if k, isC := st.Val.(*ssa.Const); !isC || (k.Value != nil && k.Value.Kind() == constant.Bool && constant.BoolVal(k.Value)) {
+								markerOK = true
+							}
+						}
+					}
+				}
+			}
+			if !fabricates || !builds {
+				continue
+			}
+			nFab++
+			key := "AST/else:marker-set:" + f.Name()
+			if markerOK {
+				obs = append(obs, Ob{Key: key, Site: c.Pos(f.Pos()), Verdict: OK, Note: "the IfStat records whether its last condition stands for an else branch"})
+			} else {
+				obs = append(obs, Ob{Key: key, Site: c.Pos(f.Pos()), Verdict: VIOLATION,
+					Note: f.Name() + " fabricates a `true` condition for the else branch and stores it among the written conditions without marking the statement: consumers cannot tell `else` from `elseif true`"})
+			}
+		}
+		// (2) consumers that compare conditions with each other
+		nCons := 0
+		for _, f := range c.ModFns() {
+			fromExps := func(v ssa.Value) bool { // v = load of IfStat.Exps[i]
+				ld, ok := v.(*ssa.UnOp)
+				if !ok || ld.Op != token.MUL {
+					return false
+				}
+				ia, ok := ld.X.(*ssa.IndexAddr)
+				if !ok {
+					return false
+				}
+				sl, ok := ia.X.(*ssa.UnOp)
+				if !ok || sl.Op != token.MUL {
+					return false
+				}
+				fa, ok := sl.X.(*ssa.FieldAddr)
+				return ok && isIfStat(fa.X.Type()) && fieldName(fa.X.Type(), fa.Field) == "Exps"
+			}
+			compares, reads := false, false
+			var site token.Pos
+			for _, b := range f.Blocks {
+				for _, ins := range b.Instrs {
+					if call, ok := ins.(*ssa.Call); ok {
+						if g := call.Call.StaticCallee(); g != nil && g.Name() == "CompExp" && len(call.Call.Args) == 2 &&
+							fromExps(call.Call.Args[0]) && fromExps(call.Call.Args[1]) {
+							compares = true
+							site = call.Pos()
+						}
+					}
+					if ld, ok := ins.(*ssa.UnOp); ok && ld.Op == token.MUL {
+						if fa, ok := ld.X.(*ssa.FieldAddr); ok && boolFieldOfIf(fa) {
+							reads = true
+						}
+					}
+				}
+			}
+			if !compares {
+				continue
+			}
+			nCons++
+			key := "AST/else:consumer:" + fnKey(f)
+			if reads {
+				obs = append(obs, Ob{Key: key, Site: c.Pos(site), Verdict: OK, Note: "reads the else marker"})
+			} else {
+				obs = append(obs, Ob{Key: key, Site: c.Pos(site), Verdict: VIOLATION,
+					Note: "the conditions of an if statement are compared pairwise without looking at the else marker: the `true` that stands for `else` takes part"})
+			}
+		}
+		obs = append(obs, floor("AST/else-marker", "fabricating parser functions + comparing consumers", nFab+nCons, 2))
+		return obs
+	},
+}
+
+// LEX/stale-lookahead: a decision to consume the next token is taken on a fresh look at it.
+
+var ruleStaleLookahead = &Rule{
+	Name:    "PARSE/stale-lookahead",
+	NeedSSA: true,
+	Text: "in the Lua parser and the annotation parser, a branch on the result of LookAheadKind() whose taken side starts by consuming a token is not separated " +
+		"from that LookAheadKind() call by another call that may consume tokens: a kind read before `: Parent` was parsed says nothing about the token that follows it " +
+		"(`---@generic T : Base, K` lost `K` when the two look-ahead reads of the loop were hoisted into one)",
+	Run: func(c *Ctx) []Ob {
+		var obs []Ob
+		// consuming functions: methods of the two lexers that store the token state (NextToken*), and everything in the
+		// parser packages that calls one (transitively)
+		consumes := map[*ssa.Function]bool{}
+		for _, f := range c.ModFns() {
+			if f.Pkg == nil {
+				continue
+			}
+			pp := f.Pkg.Pkg.Path()
+			if (pp == lexerPkg || pp == annLexPkg) && len(f.Name()) >= 9 && f.Name()[:9] == "NextToken" {
+				consumes[f] = true
+			}
+			if (pp == lexerPkg || pp == annLexPkg) && (f.Name() == "NextIdentifier" || f.Name() == "NextFieldName" || f.Name() == "NextParamName" || f.Name() == "NextTypeIdentifier") {
+				consumes[f] = true
+			}
+		}
+		for changed := true; changed; {
+			changed = false
+			for _, f := range c.ModFns() {
+				if consumes[f] || f.Pkg == nil {
+					continue
+				}
+				pp := f.Pkg.Pkg.Path()
+				if pp != parserPkg && pp != annParPkg && pp != lexerPkg && pp != annLexPkg {
+					continue
+				}
+				if f.Name() == "LookAheadKind" || f.Name() == "lookAheardToken" || f.Name() == "LookAheadToken" || f.Name() == "GetHeardTokenLoc" || f.Name() == "GetNowTokenLoc" ||
+					f.Name() == "GetHeardLoc" || f.Name() == "GetHeardTokenStr" || f.Name() == "ErrorPrint" || f.Name() == "errorPrint" {
+					continue // looking ahead does not consume for the parser (the token stays the next one)
+				}
+				for _, b := range f.Blocks {
+					for _, ins := range b.Instrs {
+						if call, ok := ins.(*ssa.Call); ok {
+							if g := call.Call.StaticCallee(); g != nil && consumes[g] {
+								consumes[f] = true
+								changed = true
+							}
+						}
+					}
+				}
+			}
+		}
+		isConsume := func(i ssa.Instruction) bool {
+			call, ok := i.(*ssa.Call)
+			if !ok {
+				return false
+			}
+			g := call.Call.StaticCallee()
+			return g != nil && consumes[g]
+		}
+		n := 0
+		for _, f := range c.ModFns() {
+			if f.Pkg == nil || (f.Pkg.Pkg.Path() != parserPkg && f.Pkg.Pkg.Path() != annParPkg) {
+				continue
+			}
+			cnt := 0
+			for _, b := range f.Blocks {
+				iff, ok := b.Instrs[len(b.Instrs)-1].(*ssa.If)
+				if !ok {
+					continue
+				}
+				bo, ok := iff.Cond.(*ssa.BinOp)
+				if !ok || (bo.Op != token.EQL && bo.Op != token.NEQ) {
+					continue
+				}
+				var la *ssa.Call
+				for _, v := range []ssa.Value{bo.X, bo.Y} {
+					if call, ok := v.(*ssa.Call); ok {
+						if g := call.Call.StaticCallee(); g != nil && g.Name() == "LookAheadKind" {
+							la = call
+						}
+					}
+				}
+				if la == nil {
+					continue
+				}
+				// the side taken when the kinds are equal starts by consuming?
+				eq := b.Succs[0]
+				if bo.Op == token.NEQ {
+					eq = b.Succs[1]
+				}
+				first := false
+				for _, ins := range eq.Instrs {
+					if _, isCall := ins.(*ssa.Call); isCall {
+						first = isConsume(ins)
+						break
+					}
+				}
+				if !first {
+					continue
+				}
+				n++
+				cnt++
+				key := fmt.Sprintf("PARSE/stale-lookahead:%s#%d", fnKey(f), cnt)
+				// may a consuming call execute between the look-ahead and this branch?
+				stale := false
+				for _, bb := range f.Blocks {
+					for _, cs := range bb.Instrs {
+						if !isConsume(cs) || stale {
+							continue
+						}
+						// la ... cs ... branch, without reading the look-ahead again in between
+						if len(mayFollowAvoiding(f, la, cs, la)) > 0 && len(mayFollowAvoiding(f, cs, iff, la)) > 0 {
+							stale = true
+						}
+					}
+				}
+				if stale {
+					obs = append(obs, Ob{Key: key, Site: c.Pos(iff.Cond.Pos()), Verdict: VIOLATION,
+						Note: "the next token is consumed because an EARLIER look-ahead had this kind: tokens may have been consumed in between, so the kind tested is not that of the token consumed"})
+				} else {
+					obs = append(obs, Ob{Key: key, Site: c.Pos(iff.Cond.Pos()), Verdict: OK, Note: "fresh look-ahead"})
+				}
+			}
+		}
+		obs = append(obs, floor("PARSE/stale-lookahead", "consume-on-look-ahead branches", n, 30))
+		return obs
+	},
+}
+
+// mayFollowAvoiding: can `to` be reached from `from` without executing `avoid`? (one element: from, if yes)
+func mayFollowAvoiding(f *ssa.Function, from, to, avoid ssa.Instruction) []ssa.Instruction {
+	// instruction-level walk inside blocks, block-level across
+	type pt struct {
+		b *ssa.BasicBlock
+		i int
+	}
+	idx := func(ins ssa.Instruction) pt {
+		for i, x := range ins.Block().Instrs {
+			if x == ins {
+				return pt{ins.Block(), i}
+			}
+		}
+		return pt{ins.Block(), 0}
+	}
+	start := idx(from)
+	seen := map[*ssa.BasicBlock]bool{}
+	var scan func(b *ssa.BasicBlock, i int) bool
+	scan = func(b *ssa.BasicBlock, i int) bool {
+		for ; i < len(b.Instrs); i++ {
+			if b.Instrs[i] == avoid {
+				return false
+			}
+			if b.Instrs[i] == to {
+				return true
+			}
+		}
+		for _, s := range b.Succs {
+			if seen[s] {
+				continue
+			}
+			seen[s] = true
+			if scan(s, 0) {
+				return true
+			}
+		}
+		return false
+	}
+	if scan(start.b, start.i+1) {
+		return []ssa.Instruction{from}
+	}
+	return nil
+}
+
+// PARSE/switch-default: a parser that dispatches on the next token says what happens for every token.
+
+var ruleSwitchDefault = &Rule{
+	Name: "PARSE/lookahead-switch-default",
+	Text: "every `switch l.LookAheadKind() { … }` of the Lua parser has a default clause, or is followed in its block by the statements of the general case: the case list names the tokens a construct may start with, and whatever " +
+		"else comes next must either be handled as the general case or be reported — a switch without default silently accepts it " +
+		"(`obj:name` without arguments parsed as a complete call)",
+	Run: func(c *Ctx) []Ob {
+		var obs []Ob
+		pkg := c.ByPath[parserPkg]
+		if pkg == nil {
+			return []Ob{{Key: "PARSE/switch-default:slot", Verdict: UNDECIDED, Note: "parser package not loaded"}}
+		}
+		n := 0
+		for _, file := range pkg.Syntax {
+			for _, decl := range file.Decls {
+				fd, ok := decl.(*ast.FuncDecl)
+				if !ok || fd.Body == nil {
+					continue
+				}
+				cnt := 0
+				// what follows a switch in its block: a switch without default whose general case is the code after it
+				// (early-return cases, then the common path) is complete
+				followed := map[*ast.SwitchStmt]bool{}
+				ast.Inspect(fd.Body, func(nd ast.Node) bool {
+					blk, ok := nd.(*ast.BlockStmt)
+					if !ok {
+						return true
+					}
+					for i, st := range blk.List {
+						sw, ok := st.(*ast.SwitchStmt)
+						if !ok {
+							continue
+						}
+						for _, nx := range blk.List[i+1:] {
+							if r, isRet := nx.(*ast.ReturnStmt); isRet && len(r.Results) == 0 {
+								continue
+							}
+							if _, isRet := nx.(*ast.ReturnStmt); isRet {
+								continue
+							}
+							followed[sw] = true
+						}
+					}
+					return true
+				})
+				ast.Inspect(fd.Body, func(nd ast.Node) bool {
+					sw, ok := nd.(*ast.SwitchStmt)
+					if !ok || sw.Tag == nil {
+						return true
+					}
+					call, ok := sw.Tag.(*ast.CallExpr)
+					if !ok {
+						return true
+					}
+					fn := calleeOf(pkg.TypesInfo, call)
+					if fn == nil || fn.Name() != "LookAheadKind" {
+						return true
+					}
+					n++
+					cnt++
+					key := fmt.Sprintf("PARSE/switch-default:%s#%d", fd.Name.Name, cnt)
+					hasDefault := false
+					for _, st := range sw.Body.List {
+						if cc, ok := st.(*ast.CaseClause); ok && cc.List == nil {
+							hasDefault = true
+						}
+					}
+					if hasDefault {
+						obs = append(obs, Ob{Key: key, Site: c.Pos(sw.Pos()), Verdict: OK})
+					} else if followed[sw] {
+						obs = append(obs, Ob{Key: key, Site: c.Pos(sw.Pos()), Verdict: OK, Note: "no default clause: the statements after the switch are the general case"})
+					} else {
+						obs = append(obs, Ob{Key: key, Site: c.Pos(sw.Pos()), Verdict: VIOLATION,
+							Note: fd.Name.Name + " dispatches on the next token without a default clause: a token that is in no case list is neither handled nor reported"})
+					}
+					return true
+				})
+			}
+		}
+		obs = append(obs, floor("PARSE/lookahead-switch-default", "switches over the look-ahead kind in the parser", n, 6))
 		return obs
 	},
 }
